@@ -103,6 +103,12 @@ pub(crate) mod native {
         match fname {
             "update_times::update_times_forward" => { update_times_forward(o.as_mut_slice(), f(&a[0]) * uc::S); Ok(Ok(Value::Null)) }
             "update_times::update_times_backward" => { update_times_backward(o.as_mut_slice()); Ok(Ok(Value::Null)) }
+            "update_est_times_add" => {
+                let mov: Vec<SimpleState> = serde_json::from_value(a[0].clone()).map_err(|e| Unsup(format!("movement: {e}")))?;
+                let lps: Vec<LinkPoint> = serde_json::from_value(a[1].clone()).map_err(|e| Unsup(format!("link points: {e}")))?;
+                update_est_times_add(o, &mov, &lps, f(&a[2]) * uc::M);
+                Ok(Ok(Value::Null))
+            }
             _ => Err(Unsup(format!("no runner entry for {fname}"))),
         }
     }
